@@ -261,7 +261,7 @@ func (sc *Schema) genAtom(rnd *rand.Rand, t *Table, ncols int) *Pred {
 	case k < 5:
 		ops := []string{"=", "=", "<>", "<", "<=", ">", ">="}
 		op, v := ops[rnd.Intn(len(ops))], sc.storable(rnd, ci)
-		if op == "<>" && NeFractionalOnIndexedDecimal(t, ci, v) {
+		if op == "<>" && sc.T.Excl.NeFractionalDecimal && NeFractionalOnIndexedDecimal(t, ci, v) {
 			op = "=" // excluded input class (known finding, via=domain)
 		}
 		return &Pred{Op: "cmp", Col: ci, Cmp: op, Vals: []Val{v}}
@@ -573,9 +573,24 @@ func (sc *Schema) Next(rnd *rand.Rand) *Stmt {
 	for try := 0; try < 40; try++ {
 		st := sc.genOne(rnd)
 		trial := sc.T.Clone()
-		if out := trial.Apply(st, RightCmp); out.Unspecified == "" {
-			return st
+		out := trial.Apply(st, RightCmp)
+		if out.Unspecified != "" {
+			continue
 		}
+		if sc.T.Excl.UniqueCheckDeadRow {
+			// excluded input class: a processed row agrees on a unique key with a row version removed
+			// earlier in the statement — under the column's collation / character prefix, or bytewise
+			if out.Shadowed {
+				continue
+			}
+			if sc.hasNonBinaryKey() {
+				raw := sc.T.Clone()
+				if raw.Apply(st, KeyCmp{IgnoreCollation: true, PrefixInBytes: true}).Shadowed {
+					continue
+				}
+			}
+		}
+		return st
 	}
 	// fallback that is always specified: a plain single-row insert of storable values
 	cols := make([]int, len(sc.T.Cols))
@@ -599,6 +614,22 @@ func NeFractionalOnIndexedDecimal(t *Table, ci int, v Val) bool {
 	for _, k := range t.Keys {
 		for _, c := range k.Cols {
 			if c == ci {
+				return true
+			}
+		}
+	}
+	return false
+}
+
+// hasNonBinaryKey: some unique key has a prefix length or a string column with a folding collation.
+func (sc *Schema) hasNonBinaryKey() bool {
+	for _, k := range sc.T.Keys {
+		if !k.Unique {
+			continue
+		}
+		for i, c := range k.Cols {
+			ct := sc.T.Cols[c].Type
+			if (i < len(k.Prefix) && k.Prefix[i] > 0) || (ct.Kind == KStr && (ct.Coll == CollAiCi || ct.Coll == CollGeneralCi)) {
 				return true
 			}
 		}
